@@ -104,7 +104,7 @@ def check_loops(pp):
 def measure_types():
     """sizeof(hawk_uch_t)*8 and HAWK_BCSIZE_MAX with the flags of the checked build"""
     src = ('#include <hawk-cmn.h>\n#include <stdio.h>\n'
-           'int main(void){printf("%d %d %d\\n",(int)(sizeof(hawk_uch_t)*8),(int)HAWK_BCSIZE_MAX,(int)(((hawk_uch_t)-1)>0));return 0;}\n')
+           'int main(void){unsigned short x=1;printf("%d %d %d %d\\n",(int)(sizeof(hawk_uch_t)*8),(int)HAWK_BCSIZE_MAX,(int)(((hawk_uch_t)-1)>0),(int)*(unsigned char*)&x);return 0;}\n')
     with tempfile.TemporaryDirectory() as d:
         c = os.path.join(d, "m.c")
         open(c, "w").write(src)
@@ -113,6 +113,8 @@ def measure_types():
             raise TranslateError("cannot compile type probe: " + p.stderr.decode(errors="replace")[-500:])
         out = subprocess.run([os.path.join(d, "m")], stdout=subprocess.PIPE).stdout.decode().split()
     bits, bcmax, unsigned_ = int(out[0]), int(out[1]), int(out[2])
+    if len(out) < 4 or int(out[3]) != 1:
+        raise TranslateError("the host is not little endian; the utf16 model (HawkModel/Utf8.lean ucToUtf16/utf16ToUc) stores code units low byte first")
     if not unsigned_:
         raise TranslateError("hawk_uch_t is a signed type here; the model assumes an unsigned one")
     if bits not in (16, 32):
